@@ -35,6 +35,7 @@ Ticks   == {}
 Horizon == 0
 MaxEx   == 0
 ProbeNs == {}
+ProbeUids == {}
 
 VARIABLES now, prov, pool, sess, used, seen, phase, net, rep, pre, clean, nex, nextId, obs,
           l,     \* position of the last event consumed
@@ -74,7 +75,7 @@ TNext ==
         /\ prov' = ProvOf(e.prov)
         /\ sess' = e.sess
         /\ pool' = e.pool
-        /\ rep' = [k |-> "ke", n |-> 8, cookies |-> e.cookies, sess |-> e.sess, size |-> 0, bad |-> FALSE]
+        /\ rep' = [k |-> "ke", n |-> 8, u |-> OwnUid, cookies |-> e.cookies, sess |-> e.sess, size |-> 0, bad |-> FALSE]
         /\ seen' = seen \cup Ids(e.cookies)
         /\ obs' = "rekey"
         /\ aux' = [NoAux EXCEPT !.opens = AllOpen(e.cookies), !.lens = AllLen(e.cookies)]
@@ -115,7 +116,7 @@ TNext ==
      \/ /\ e.ev = "rep"
         /\ phase' = "resp" /\ net' = NoMsg
         /\ prov' = ProvOf(e.prov)
-        /\ rep' = [k |-> "ntp", n |-> e.n, cookies |-> e.cookies, sess |-> e.sess, size |-> e.size, bad |-> e.bad]
+        /\ rep' = [k |-> "ntp", n |-> e.n, u |-> e.u, cookies |-> e.cookies, sess |-> e.sess, size |-> e.size, bad |-> e.bad]
         /\ seen' = seen \cup Ids(e.cookies)
         /\ obs' = "serve"
         /\ aux' = [NoAux EXCEPT !.opens = AllOpen(e.cookies), !.lens = AllLen(e.cookies)]
@@ -143,8 +144,8 @@ TNext ==
      \/ /\ e.ev = "probe"
         /\ prov' = ProvOf(e.prov)
         /\ rep' = IF e.ans
-                  THEN [k |-> "probe", n |-> e.n, cookies |-> e.cookies, sess |-> 0, size |-> e.size, bad |-> e.bad]
-                  ELSE NoMsg
+                  THEN [k |-> "probe", n |-> e.n, u |-> e.u, cookies |-> e.cookies, sess |-> 0, size |-> e.size, bad |-> e.bad]
+                  ELSE [k |-> "dropped", n |-> e.n, u |-> e.u, cookies |-> << >>, sess |-> 0, size |-> 0, bad |-> FALSE]
         /\ seen' = seen \cup Ids(e.cookies)
         /\ obs' = "probe"
         /\ aux' = [NoAux EXCEPT !.opens = AllOpen(e.cookies), !.lens = AllLen(e.cookies), !.ans = e.ans]
@@ -167,8 +168,6 @@ MonS(name, ok) == ok \/ PrintT(<<"VIOL", name, l + 1>>)     \* step clauses: the
 \* the real decryption (Provider.Get + EncryptedServerCookie.Decrypt) of every
 \* issued cookie, next to the model's KeyValid on the projected provider
 RealOpens == aux.opens
-\* a request built by the harness for the live server is answered
-ProbeAnswered == aux.ans
 
 TMonitor ==
   /\ Mon("SentLeavesPool", SentLeavesPool)
@@ -199,7 +198,7 @@ KeysOf(s) == {s[i].key : i \in DOMAIN s}
 
 SReply(r, n, s, kind) ==
   LET pv == CurrentP(prov, now)
-      x  == ReplyFor(kind, n, s, pv)
+      x  == ReplyFor(kind, n, s, pv, r.u)
   IN /\ prov' = pv
      /\ r.n = n /\ r.sess = s
      /\ r.bad = x.bad /\ r.size = x.size
@@ -230,9 +229,12 @@ StrictStep ==
        /\ Len(pool') = 8 /\ KeysOf(pool') = {prov'.cur})
   /\ Dr("serve", obs' = "serve" =>
        /\ ~net.bad /\ KeyValid(net.cookie.key)
+       /\ rep'.u = OwnUid
        /\ SReply(rep', net.ncookie + net.nph, net.cookie.sess, "ntp"))
   /\ Dr("norep", obs' = "norep" => (net.bad \/ ~KeyValid(net.cookie.key)) /\ prov' = prov)
-  /\ Dr("probe", obs' = "probe" => (aux'.ans /\ SReply(rep', rep'.n, 0, "probe")))
+  /\ Dr("probe", obs' = "probe" =>
+       /\ aux'.ans = UidAccepted(rep'.u)
+       /\ (IF aux'.ans THEN SReply(rep', rep'.n, 0, "probe") ELSE prov' = CurrentP(prov, now)))
   /\ Dr("store", obs' = "store" =>
        /\ phase = "resp" /\ ~rep.bad
        /\ IdSeq(pool') = IdSeq(pool \o rep.cookies))
